@@ -439,7 +439,8 @@ impl<'a> VisitMut for Norm<'a> {
                         let n = self.loop_no + 1;
                         let head = format!("__vx_anchor_loop{}_head", n);
                         let head_id = Ident::new(&head, Span::call_site());
-                        *e = parse_quote!(#label loop { #head_id!(); let #pat = #ex else { break; }; #(#body)* });
+                        let bound_id = Ident::new(&format!("__vx_anchor_loop{}_bound", n), Span::call_site());
+                        *e = parse_quote!(#label loop { #head_id!(); let #pat = #ex else { break; }; #bound_id!(); #(#body)* });
                         self.bump("R-WHILELET");
                     }
                 }
@@ -478,11 +479,16 @@ impl<'a> VisitMut for Norm<'a> {
                 self.visit_block_mut(&mut l.body);
                 // loopN.head anchor placeholder inserted by R-WHILELET
                 let head = format!("__vx_anchor_loop{}_head", n);
+                let bound = format!("__vx_anchor_loop{}_bound", n);
                 let mut new_stmts = vec![];
                 for s in std::mem::take(&mut l.body.stmts) {
                     if let Stmt::Macro(sm) = &s {
                         if sm.mac.path.is_ident(&head) {
                             new_stmts.extend(self.anchor(&format!("loop{}.head", n)));
+                            continue;
+                        }
+                        if sm.mac.path.is_ident(&bound) {
+                            new_stmts.extend(self.anchor(&format!("loop{}.bound", n)));
                             continue;
                         }
                     }
@@ -512,15 +518,6 @@ impl<'a> VisitMut for Norm<'a> {
                     let ex = &f.expr;
                     *f.expr = parse_quote!(#ex.into_vec());
                     self.bump("R-ITER(for)");
-                }
-                // non-identifier pattern
-                if !matches!(&*f.pat, Pat::Ident(_)) {
-                    self.forpat_no += 1;
-                    let id = Ident::new(&format!("__vx_x{}", self.forpat_no), Span::call_site());
-                    let pat = (*f.pat).clone();
-                    *f.pat = parse_quote!(#id);
-                    f.body.stmts.insert(0, parse_quote!(let #pat = #id;));
-                    self.bump("R-FORPAT");
                 }
                 if let Some(lbl) = self.spec.loop_labels.get(&n) {
                     let w = Ident::new(&format!("__vx_it_{}", lbl), Span::call_site());
@@ -725,6 +722,10 @@ impl<'a> VisitMut for Norm<'a> {
                                     self.bump("R-STD");
                                 }
                             }
+                        }
+                        "extend" if mc.args.len() == 1 => {
+                            mc.method = Ident::new("vx_extend", mc.method.span());
+                            self.bump("R-STD");
                         }
                         "expect" => {
                             // message dropped
